@@ -59,6 +59,12 @@ CLAIMED["C16"] = dict(
    text="Generated values nested to depth 6 over all listed container and leaf types are printed at generated widths/indent sizes/expand_all and evaluated back (same types at every level); for built-in containers the output must equal repr() whenever that fits; expanded output must indent one level at a time and no over-wide line may hold a collapsed non-empty container; abbreviation markers and cyclic values are compared with a reference printer.",
    note="Finite floats; defaultdict factory reprs rewritten for eval as for Python's own repr; deque maxlen is not part of equality.",
    ref="5 C16")
+CLAIMED["C19"] = dict(
+   technique="Hypothesis property tests: encoder->decoder round trip, and a differential between the raw written stream and the console output through FileProxy / Live-redirected stdout, both decoded by an independent SGR/OSC-8 interpreter",
+   level="exploration",
+   text="Round trip: generated styled segments printed in truecolor are decoded with AnsiDecoder and compared per line and per character. Redirection: generated streams of SGR/OSC-8 coded lines (from an independent encoder) are cut into write() calls at arbitrary offsets, interleaved with flushes, fed to FileProxy and to sys.stdout under a Live; the console output must decode to the same (char, attrs, fg, bg, link) sequence, each complete line exactly once and in order, one new line per non-empty flush.",
+   note="Flushes do not fall inside an escape sequence; lines <= 150 cells on a 200-cell console; SGR and OSC-8 only; attributes compared as the set that is on.",
+   ref="5 C19")
 NOT_YET = {}
 props = [json.loads(l) for l in open(os.path.join(V, "properties.jsonl"))]
 checks = []
